@@ -83,6 +83,8 @@ pub enum DataValue {
     Null,
     Bool(bool),
     Int(i64),
+    /// an integer above i64::MAX (JSON / YAML only)
+    UInt(u64),
     Float(f64),
     Str(String),
     Arr(Vec<DataValue>),
@@ -408,6 +410,7 @@ impl DataValue {
             DataValue::Null => "nil".to_owned(),
             DataValue::Bool(b) => b.to_string(),
             DataValue::Int(i) => i.to_string(),
+            DataValue::UInt(u) => u.to_string(),
             DataValue::Float(f) => float_text(*f),
             DataValue::Str(s) => lua_string(s),
             DataValue::Arr(items) => format!("{{{}}}", items.iter().map(|v| v.to_lua()).collect::<Vec<_>>().join(", ")),
@@ -430,6 +433,7 @@ impl DataValue {
             DataValue::Null => "null".to_owned(),
             DataValue::Bool(b) => b.to_string(),
             DataValue::Int(i) => i.to_string(),
+            DataValue::UInt(u) => u.to_string(),
             DataValue::Float(f) => float_text(*f),
             DataValue::Str(s) => json_string(s),
             DataValue::Arr(items) => format!("[{}]", items.iter().map(|v| v.to_json()).collect::<Vec<_>>().join(", ")),
@@ -482,7 +486,22 @@ impl DataValue {
     }
 }
 
-fn gen_scalar(rng: &mut Rng, allow_null: bool) -> DataValue {
+/// boundary values of the numeric conversions (`rich`: also what only JSON / JSON5 / YAML can spell)
+fn gen_boundary(rng: &mut Rng, rich: bool) -> DataValue {
+    let ints: [i64; 8] = [i64::MAX, i64::MIN, i64::MAX - 1, 1 << 53, (1 << 53) + 1, -(1 << 53) - 1, u32::MAX as i64 + 1, i32::MIN as i64];
+    let uints: [u64; 4] = [1 << 63, (1 << 63) + 1025, u64::MAX, u64::MAX - 2047];
+    let floats: [f64; 7] = [9007199254740992.0, 1.7976931348623157e308, 5e-324, 2.2250738585072014e-308, 4294967296.5, -9.223372036854775808e18, 1.8446744073709552e19];
+    match rng.below(if rich { 3 } else { 2 }) {
+        0 => DataValue::Int(*rng.pick(&ints)),
+        1 => DataValue::Float(*rng.pick(&floats)),
+        _ => DataValue::UInt(*rng.pick(&uints)),
+    }
+}
+
+fn gen_scalar(rng: &mut Rng, allow_null: bool, rich: bool) -> DataValue {
+    if rng.chance(1, 6) {
+        return gen_boundary(rng, rich);
+    }
     match rng.below(if allow_null { 7 } else { 6 }) {
         0 => DataValue::Bool(rng.chance(1, 2)),
         1 => DataValue::Int(rng.range(-1000, 100000)),
@@ -494,24 +513,24 @@ fn gen_scalar(rng: &mut Rng, allow_null: bool) -> DataValue {
     }
 }
 
-pub fn gen_data(rng: &mut Rng, depth: usize, allow_null: bool) -> DataValue {
+pub fn gen_data(rng: &mut Rng, depth: usize, allow_null: bool, rich: bool) -> DataValue {
     if depth == 0 {
-        return gen_scalar(rng, allow_null);
+        return gen_scalar(rng, allow_null, rich);
     }
     match rng.below(3) {
-        0 => gen_scalar(rng, allow_null),
-        1 => DataValue::Arr((0..rng.below(4)).map(|_| gen_data(rng, depth - 1, false)).collect()),
-        _ => gen_map(rng, depth, allow_null),
+        0 => gen_scalar(rng, allow_null, rich),
+        1 => DataValue::Arr((0..rng.below(4)).map(|_| gen_data(rng, depth - 1, false, rich)).collect()),
+        _ => gen_map(rng, depth, allow_null, rich),
     }
 }
 
-pub fn gen_map(rng: &mut Rng, depth: usize, allow_null: bool) -> DataValue {
+pub fn gen_map(rng: &mut Rng, depth: usize, allow_null: bool, rich: bool) -> DataValue {
     let pool = ["name", "value", "list", "nested", "end", "two words", "1x", "_ok", "x-y", "Z9", "while", "caf\u{e9}"];
     let mut keys: BTreeSet<String> = BTreeSet::new();
     for _ in 0..rng.below(5) {
         keys.insert((*rng.pick(&pool)).to_owned());
     }
-    DataValue::Map(keys.into_iter().map(|k| { let v = gen_data(rng, depth.saturating_sub(1), allow_null); (k, v) }).collect())
+    DataValue::Map(keys.into_iter().map(|k| { let v = gen_data(rng, depth.saturating_sub(1), allow_null, rich); (k, v) }).collect())
 }
 
 impl Case {
@@ -799,14 +818,17 @@ pub fn render(case: &Case) -> Rendered {
 
 // ------------------------------------------------------------------ case generation
 
-pub const LUA_POOL: [&str; 18] = [
+pub const LUA_POOL: [&str; 22] = [
     "src/a.lua", "src/b.luau", "src/c.lua", "src/sub/d.lua", "src/sub/init.lua", "src/sub/deep/e.luau", "src/util/init.luau",
     "lib/f.lua", "src/g.lua", "src/sub/deep/init.lua", "lib/h/i.lua", "src/a/init.lua",
     // the same tail in several directories: `@self/util`, `./util` mean different files there
     "src/util.lua", "src/sub/util.lua", "src/sub/deep/util.lua", "lib/util.lua", "lib/h/util.lua", "lib/h/init.lua",
+    // a root directory name nested again: each of these ENDS WITH (component-wise) another file of the pool
+    "src/vendor/src/util.lua", "lib/h/lib/util.lua", "src/vendor/src/a.lua", "src/sub/src/sub/d.lua",
 ];
-pub const DATA_POOL: [&str; 7] = [
+pub const DATA_POOL: [&str; 9] = [
     "src/data/cfg.json", "src/data/cfg.json5", "src/data/info.yaml", "src/data/info.yml", "src/data/conf.toml", "src/data/note.txt", "lib/k.json",
+    "src/pkg/src/data/cfg.json", "lib/h/lib/k.json",
 ];
 
 pub struct GenOptions {
@@ -883,8 +905,8 @@ pub fn gen_case(rng: &mut Rng, opts: &GenOptions, prefix_gen: &mut dyn FnMut(&mu
             let allow_null = extension(&path) != Some("toml");
             let value = match extension(&path) {
                 Some("txt") => DataValue::Str((*rng.pick(&["hello\nworld\n", "", "one line", "quote \" and \\ backslash"])).to_owned()),
-                Some("toml") => gen_map(rng, 2, false),
-                _ => if rng.chance(3, 4) { gen_map(rng, 2, allow_null) } else { gen_data(rng, 2, allow_null) },
+                Some("toml") => gen_map(rng, 2, false, false),
+                _ => if rng.chance(3, 4) { gen_map(rng, 2, allow_null, true) } else { gen_data(rng, 2, allow_null, true) },
             };
             let malformed = opts.defects && rng.chance(1, 10);
             files.push(FileSpec { path, kind: FileKind::Data { value, malformed } });
@@ -1102,6 +1124,115 @@ pub fn return_shapes() -> Vec<Case> {
             // the same shape on the ENTRY is fine
             let files = vec![lua("src/main.lua", vec![site("./ok", Form::LocalParen)], ret, Kind::Num), lua("src/ok.lua", Vec::new(), Ret::One, Kind::Str)];
             cases.push(Case { mode, files, excludes: Vec::new(), modules_identifier: None, aliases: Vec::new() });
+        }
+    }
+    cases
+}
+
+/// Files whose path is a component-wise SUFFIX of another file's path (a root directory name nested
+/// again: `src/vendor/src/util.lua` ends with `src/util.lua`), required long→short, short→long, in
+/// chains and diamonds. Comparing paths by anything weaker than equality (suffix, file name, …)
+/// mistakes such graphs for cycles or merges distinct files.
+pub fn nested_roots(rng: &mut Rng) -> Case {
+    let families: [&[&str]; 5] = [
+        &["src/util.lua", "src/vendor/src/util.lua", "src/vendor/src/vendor/src/util.lua"],
+        &["lib/util.lua", "lib/h/lib/util.lua"],
+        &["src/data/cfg.json", "src/pkg/src/data/cfg.json"],
+        &["src/sub/init.lua", "src/x/src/sub/init.lua"],
+        &["src/a.luau", "lib/src/a.luau", "lib/lib/src/a.luau"],
+    ];
+    let mode = if rng.chance(1, 2) { Mode::Path } else { Mode::Luau };
+    let family = *rng.pick(&families);
+    let mut chain: Vec<&str> = family.to_vec();
+    // long → short, short → long, or shuffled
+    match rng.below(3) {
+        0 => chain.reverse(),
+        1 => {}
+        _ => rng.shuffle(&mut chain),
+    }
+    let mut paths: Vec<String> = vec!["src/main.lua".to_owned()];
+    paths.extend(chain.iter().map(|s| (*s).to_owned()));
+    let resolver = Resolver { mode, files: paths.iter().cloned().collect(), aliases: Vec::new(), project: "src".to_owned() };
+    let n = paths.len();
+    let mut files = Vec::new();
+    for i in 0..n {
+        let path = paths[i].clone();
+        if extension(&path) == Some("json") {
+            files.push(FileSpec { path, kind: FileKind::Data { value: gen_map(rng, 1, true, true), malformed: false } });
+            continue;
+        }
+        let mut items = Vec::new();
+        // the chain edge, plus (sometimes) every later file: diamonds
+        for j in (i + 1)..n {
+            if j == i + 1 || rng.chance(1, 3) {
+                items.push(Item::Site { literal: resolver.spell(rng, &path, &paths[j]), form: pick_form(rng), shadow_block: false });
+            }
+        }
+        // the entry also reaches a random later file directly (so that it may be cached before it is
+        // required from the file it is a suffix of)
+        if i == 0 && n > 2 && rng.chance(1, 2) {
+            let j = 2 + rng.below(n - 2);
+            let at = rng.below(items.len() + 1);
+            items.insert(at, Item::Site { literal: resolver.spell(rng, &path, &paths[j]), form: pick_form(rng), shadow_block: false });
+        }
+        let kind = *rng.pick(&[Kind::Tbl, Kind::Fun, Kind::Str, Kind::Num]);
+        files.push(FileSpec { path, kind: FileKind::Lua { prefix: String::new(), items, ret: Ret::One, kind, syntax_error: false } });
+    }
+    Case { mode, files, excludes: Vec::new(), modules_identifier: None, aliases: Vec::new() }
+}
+
+/// `small_graph` on files whose paths are nested suffixes of one another:
+/// node i lives at `src/` + `v/src/` × i + `m.lua` (node 0, the entry, at `src/m.lua`)
+pub fn small_graph_nested(n: usize, mask: u32, mode: Mode) -> Case {
+    let path = |i: usize| format!("src/{}m.lua", "v/src/".repeat(i));
+    let paths: Vec<String> = (0..n).map(path).collect();
+    let resolver = Resolver { mode, files: paths.iter().cloned().collect(), aliases: Vec::new(), project: "src".to_owned() };
+    let mut files = Vec::new();
+    for i in 0..n {
+        let mut items = Vec::new();
+        for j in 0..n {
+            if mask >> (i * n + j) & 1 == 1 {
+                let base = dirname(&paths[i]).to_owned();
+                let literal = relative(&base, &paths[j]);
+                debug_assert_eq!(resolver.resolve(&paths[i], &literal).as_deref(), Ok(paths[j].as_str()));
+                items.push(Item::Site { literal, form: Form::LocalParen, shadow_block: false });
+            }
+        }
+        files.push(FileSpec {
+            path: paths[i].clone(),
+            kind: FileKind::Lua { prefix: String::new(), items, ret: Ret::One, kind: Kind::Num, syntax_error: false },
+        });
+    }
+    Case { mode, files, excludes: Vec::new(), modules_identifier: None, aliases: Vec::new() }
+}
+
+/// Enumerated: boundary values of the number conversions in bundled data files of every format
+pub fn data_boundaries() -> Vec<Case> {
+    let mut cases = Vec::new();
+    let ints: Vec<DataValue> = [i64::MAX, i64::MIN, (1 << 53) + 1, -(1 << 53) - 1].iter().map(|v| DataValue::Int(*v)).collect();
+    let uints: Vec<DataValue> = [1u64 << 63, (1 << 63) + 1025, u64::MAX, u64::MAX - 2047].iter().map(|v| DataValue::UInt(*v)).collect();
+    let floats: Vec<DataValue> =
+        [9007199254740992.0, 1.7976931348623157e308, 5e-324, 2.2250738585072014e-308, -9.223372036854775808e18, 1.8446744073709552e19].iter().map(|v| DataValue::Float(*v)).collect();
+    for (path, rich) in [("src/data/n.json", true), ("src/data/n.json5", true), ("src/data/n.yaml", true), ("src/data/n.yml", true), ("src/data/n.toml", false)] {
+        let mut entries = vec![("floats".to_owned(), DataValue::Arr(floats.clone())), ("ints".to_owned(), DataValue::Arr(ints.clone()))];
+        if rich {
+            entries.push(("uints".to_owned(), DataValue::Arr(uints.clone())));
+            entries.push(("zmax".to_owned(), DataValue::UInt(u64::MAX)));
+        }
+        for mode in [Mode::Path, Mode::Luau] {
+            let literal = format!("./data/{}", filename(path));
+            let entry = FileSpec {
+                path: "src/main.lua".to_owned(),
+                kind: FileKind::Lua {
+                    prefix: String::new(),
+                    items: vec![Item::Site { literal, form: Form::LocalParen, shadow_block: false }],
+                    ret: Ret::One,
+                    kind: Kind::Num,
+                    syntax_error: false,
+                },
+            };
+            let data = FileSpec { path: path.to_owned(), kind: FileKind::Data { value: DataValue::Map(entries.clone()), malformed: false } };
+            cases.push(Case { mode, files: vec![entry, data], excludes: Vec::new(), modules_identifier: None, aliases: Vec::new() });
         }
     }
     cases
